@@ -223,7 +223,7 @@ pub fn main(args: &util::Args) {
         let _ = std::fs::remove_dir_all(&dir);
     }
     // minimised past failures kept under /verif/corpus
-    for sub in ["C01", "C01pipe", "C02", "C03", "C06", "C07", "C08", "C09"] {
+    for sub in ["C01", "C01pipe", "C02", "C03", "C06", "C07", "C08", "C09", "C17"] {
         let Ok(rd) = std::fs::read_dir(util::verif_root().join("corpus").join(sub)) else { continue };
         // a witness is a single file `<name>.gom` or a project `<name>/main.gom` (+ package sub-directories), compiled where it lives
         let mut files: Vec<_> = rd
